@@ -76,7 +76,17 @@ ReadThrough(b, k, e) ==
 (* hands out is charged, and the direct Reads that follow find the state      *)
 (* (rem) those requests left behind.  Reads that answer with the limit error  *)
 (* inside a driver are invisible and change nothing.                          *)
-DriverRead(m, k, e) == \E b \in {m, m + 1} : ReadThrough(b, k, e) /\ rlast'.req = m
+DriverRead(m, k, e) == ReadThrough(m, k, e) /\ rlast'.req = m   \* a buffer of m bytes asks for m iff m <= rem
+
+(* The wrapped reader need not be a fixed stream: a *bytes.Buffer the          *)
+(* environment appends to between Reads, a pipe, a connection.  Grow(c): c    *)
+(* more bytes become available.  The requirement does not change - never more *)
+(* than n delivered, the limit error after n - and in particular the reader   *)
+(* returned by LimitReader limits r even when r holds fewer than n bytes at   *)
+(* the moment it is wrapped.                                                  *)
+Grow(c) ==
+    /\ slen' = slen + c
+    /\ UNCHANGED <<lim, rem, pos, dl, rlast>>
 
 Read(b) == ReadLimit(b) \/ \E k \in 0..b, e \in RErrs : ReadThrough(b, k, e)
 
